@@ -65,6 +65,14 @@ fn prepare() -> Targets {
         b.extend_from_slice(&[1, 0, 0, 0, 2, 0, 0, 0, 0xff, 0xff, 0xff, 0x7f, 9, 0, 0, 0]);
         b.extend_from_slice(&fill(5, 200));
         let _ = std::fs::write(format!("{}/badrec.pcap", base), b);
+        // the same with a global header that announces a snap length within a few bytes of u32::MAX
+        for (i, snap) in [0xffff_fffcu32, 0xffff_fffd, 0xffff_fffe].iter().enumerate() {
+            let mut h = f.bytes()[..24].to_vec();
+            h[16..20].copy_from_slice(&snap.to_le_bytes());
+            h.extend_from_slice(&[0xff; 16]);
+            h.extend_from_slice(&fill(6, 100));
+            let _ = std::fs::write(format!("{}/badrec{}.pcap", base, i + 1), h);
+        }
     }
     // for the unprivileged runs (EACCES): a file nobody may open, a directory nobody else may write to
     {
@@ -147,7 +155,7 @@ fn scenario(c: &mut Choices, t: &Targets, k: usize) -> Scn {
     match c.below(12) {
         11 => {
             // the header is fine, the first record is not pcap content: whichever read builtin meets it reports it
-            let bad = format!("{}/badrec.pcap", scratch("c22"));
+            let bad = format!("{}/badrec{}.pcap", scratch("c22"), ["", "", "1", "2", "3"][c.below(5)]);
             b.bind(&h, &format!("pcap_open(\"{}\")", bad), Need::Any, "pcap_open-badrec");
             b.raw(&format!("if !is_error({}) {{\n", h));
             match c.below(3) {
